@@ -226,25 +226,29 @@ class ClassPlain:
 
 
 class Flavour:
-    def __init__(self, name, actor, stateful, modes, std=False, needs_a=False):
+    def __init__(self, name, actor, stateful, modes, std=False, needs_a=False, sat_every=1):
         self.name, self.actor, self.stateful, self.modes, self.std, self.needs_a = name, actor, stateful, modes, std, needs_a
+        self.sat_every = sat_every  # the saturated mode runs on every n-th behaviour only (cloudpickle by value is slow)
 
 
+ALL = ('direct', 'saturated', 'functor')
 FLAVOURS = {
     f.name: f
     for f in (
-        Flavour('native', NativeSym, True, ('direct', 'functor'), std=True),
-        Flavour('pair', PairSym, True, ('direct', 'functor'), std=True),
-        Flavour('class-name', ClassByName, True, ('direct', 'functor')),
-        Flavour('class-call', ClassByCall, True, ('direct', 'functor')),
-        Flavour('class-deco', ClassDeco, True, ('direct', 'functor'), std=True),
+        # std: instances are also pushed through the standard pickle module (wrap.Actor.type instances are not: their
+        # copyreg reducer carries a local lambda only cloudpickle - the serialiser forml uses everywhere - can handle)
+        Flavour('native', NativeSym, True, ALL, std=True),
+        Flavour('pair', PairSym, True, ALL, std=True),
+        Flavour('class-name', ClassByName, True, ALL, sat_every=16),
+        Flavour('class-call', ClassByCall, True, ALL, sat_every=16),
+        Flavour('class-deco', ClassDeco, True, ALL, sat_every=4),
         Flavour('custom', CustomSym, True, ('functor',), std=True),
         Flavour('class-needy', ClassNeedy, True, ('direct', 'functor'), needs_a=True),
-        Flavour('class-plain', ClassPlain, True, ('direct',), std=True),
-        Flavour('native-stateless', NativeStateless, False, ('direct', 'functor'), std=True),
-        Flavour('apply', ApplySym, False, ('direct', 'functor'), std=True),
-        Flavour('class-stateless-name', ClassStatelessName, False, ('direct', 'functor')),
-        Flavour('class-stateless-call', ClassStatelessCall, False, ('direct',)),
+        Flavour('class-plain', ClassPlain, True, ('direct',)),
+        Flavour('native-stateless', NativeStateless, False, ALL, std=True),
+        Flavour('apply', ApplySym, False, ALL, std=True),
+        Flavour('class-stateless-name', ClassStatelessName, False, ALL, sat_every=8),
+        Flavour('class-stateless-call', ClassStatelessCall, False, ('direct', 'saturated'), sat_every=8),
         Flavour('leaky', LeakySym, True, ('direct',), std=True),  # self-test only
     )
 }
@@ -315,6 +319,8 @@ UNBUILT = [False, [0, 0], []]
 class Direct:
     """Live actor objects driven through the flow.Actor API."""
 
+    stage = None
+
     def __init__(self, flav, p0, ni):
         self.flav = flav
         self.builder = flav.actor.builder(**kw(p0))
@@ -371,6 +377,27 @@ class Direct:
         return cloudpickle.dumps({'builder': self.builder, 'inst': self.inst})
 
 
+class Saturated(Direct):
+    """Derived behaviours: after every call the touched instance additionally receives the empty state and is replaced
+    by its pickle round trip (the builder after update / reset).  Sound because Actor.tla proves EmptyIsNoop and
+    PickleIsIdentity: inserting these calls anywhere yields another behaviour with the same expected observations.
+    (TLC itself never continues a history beyond a no-op call - it leads to a state already seen.)"""
+
+    def call(self, op, i, j, d, p):
+        self.stage = op
+        res = super().call(op, i, j, d, p)
+        if op in ('update', 'reset'):
+            self.stage = 'pickleb'
+            self.builder = self._serde(self.builder)
+        elif op in ('build', 'train', 'setstate', 'setparams', 'getstate'):
+            self.stage = 'setempty'
+            self.inst[i - 1].set_state(b'')
+            self.stage = 'pickle'
+            self.inst[i - 1] = self._serde(self.inst[i - 1])
+        self.stage = None
+        return res
+
+
 class Probe(flow.Apply):
     """Functor action reporting the params in force of the (fresh, preset) actor."""
 
@@ -380,6 +407,8 @@ class Probe(flow.Apply):
 
 class ViaFunctor:
     """flow.Functor: every call builds a fresh actor from the instance's builder, presets params and state."""
+
+    stage = None
 
     def __init__(self, flav, p0, ni):
         self.flav = flav
@@ -447,7 +476,7 @@ class ViaFunctor:
         return None
 
 
-MODES = {'direct': Direct, 'functor': ViaFunctor}
+MODES = {'direct': Direct, 'saturated': Saturated, 'functor': ViaFunctor}
 
 
 def constructible(h):
@@ -476,7 +505,7 @@ def known_finding(flav, mode, h, step, op):
 def replay_one(flav, mode, beh, data):
     """Replay one exported behaviour [h, expected inst, expected builder] -> None | failure dict"""
     h, exp_inst, exp_bld = beh
-    step, op = 0, 'init'
+    step, op, machine = 0, 'init', None
     try:
         machine = MODES[mode](flav, h[0][4], len(exp_inst))
         for step, (op, i, j, d, p) in enumerate(h[1:], start=1):
@@ -498,6 +527,7 @@ def replay_one(flav, mode, beh, data):
     except tlc.MachineryError:
         raise
     except Exception as exc:  # pylint: disable=broad-except
+        op = getattr(machine, 'stage', None) or op
         return {'step': step, 'op': op, 'what': f'{op} raised {type(exc).__name__}: {str(exc)[:120]}', 'raised': type(exc).__name__}
     return None
 
@@ -516,6 +546,8 @@ def _chunk(args):
             if flav.needs_a and not constructible(beh[0]):
                 continue  # generator exclusion, see constructible()
             for mode in flav.modes:
+                if mode == 'saturated' and n % flav.sat_every:
+                    continue
                 fail = replay_one(flav, mode, beh, data)
                 if fail is None:
                     done += 1
@@ -608,7 +640,9 @@ def main(chk):
     import logging
     logging.disable(logging.INFO)
     tmp = os.getcwd()
-    procs = workers = int(os.environ.get('VERIF_PROCS') or 8)
+    procs = int(os.environ.get('VERIF_PROCS') or 8)
+    # every TLC run uses ONE worker: the call history is hidden from the fingerprint (VIEW) while the Depth bound reads it,
+    # which is exact only under strict breadth-first search
 
     # ---- 1. implementation model refines the requirement; seeded deviations are refuted (the model can tell them apart)
     depth = 4 if chk.quick else 5
@@ -617,23 +651,24 @@ def main(chk):
             if (flavour, mode) == ('custom', 'direct'):
                 continue
             chk.tlc('ActorImpl', cfg_impl(os.path.join(tmp, f'i-{flavour}-{mode}.cfg'), flavour, mode, 'asis', depth),
-                    require=['BuildI', 'TrainI', 'GetStateI', 'SetStateI', 'SetEmptyI', 'SetParamsI', 'PickleI'], workers=workers)
+                    require=['BuildI', 'TrainI', 'GetStateI', 'SetStateI', 'SetEmptyI', 'SetParamsI', 'PickleI'], workers=1)
     chk.tlc('ActorImpl', cfg_impl(os.path.join(tmp, 'i-stateless.cfg'), 'native', 'direct', 'asis', depth, ht='FALSE'),
-            require=['BuildI', 'GetStateI', 'SetStateI', 'PickleI'], workers=workers)
+            require=['BuildI', 'GetStateI', 'SetStateI', 'PickleI'], workers=1)
     for name, flavour, mode, variant in (('model_refutes_custom_set_state_via_direct_api', 'custom', 'direct', 'asis'),
                                          ('model_refutes_params_restored_before_set_state', 'custom', 'functor', 'preset_before'),
                                          ('model_refutes_empty_state_resetting_the_model', 'pair', 'direct', 'empty_resets'),
                                          ('model_refutes_pickle_dropping_params', 'class', 'direct', 'pickle_drops_params')):
         res = chk.tlc('ActorImpl', cfg_impl(os.path.join(tmp, f'm-{variant}-{flavour}.cfg'), flavour, mode, variant, 4),
-                      expect_ok=False, workers=4, coverage=False)
+                      expect_ok=False, workers=1, coverage=False)
         chk.selftest(name, res.violated == 'Refines')
 
     # ---- 2. spec -> code: every transition of the bounded state graph, replayed on every flavour
     # (has train, MaxV, Depth = calls after the initial build, Rich, Data)
     if chk.quick:
-        plans = [('TRUE', 1, 4, 'FALSE', (1, 2)), ('TRUE', 1, 5, 'FALSE', (1,)), ('FALSE', 1, 5, 'FALSE', (1,))]
+        plans = [('TRUE', 1, 3, 'FALSE', (1, 2)), ('TRUE', 1, 5, 'FALSE', (1,)), ('FALSE', 1, 5, 'FALSE', (1,))]
     else:
-        plans = [('TRUE', 1, 6, 'FALSE', (1, 2)), ('TRUE', 2, 4, 'TRUE', (1, 2)), ('FALSE', 2, 5, 'TRUE', (1,))]
+        plans = [('TRUE', 1, 5, 'FALSE', (1, 2)), ('TRUE', 1, 6, 'FALSE', (1,)), ('TRUE', 2, 3, 'TRUE', (1,)),
+                 ('TRUE', 1, 4, 'TRUE', (1, 2)), ('FALSE', 1, 5, 'TRUE', (1,)), ('FALSE', 2, 3, 'TRUE', (1,))]
     total, all_failures, dumps, counts = 0, [], [], {}
     leaky_caught = 0
     for n, (ht, maxv, depth, rich, data) in enumerate(plans):
@@ -772,9 +807,11 @@ def record_trace(flav, mode, rnd, length, script=None, p0=None):
             ops = ['update', 'update', 'reset', 'pickleb', 'build']
             src = []
             if built[i - 1]:
-                ops += ['getstate', 'setempty', 'setparams', 'setparams', 'pickle', 'apply', 'apply']
+                ops += ['getstate', 'setempty', 'setparams', 'setparams', 'pickle']
                 if flav.stateful:
                     ops += ['train'] * 3
+                if trained[i - 1] or not flav.stateful:
+                    ops += ['apply'] * 2  # what the apply of an untrained stateful actor does is outside the property
                 # silent region of the property excluded: the state of an untrained twin given to a trained actor
                 src = [k + 1 for k in range(TRACE_NI) if snapt[k] is not None and (snapt[k] or not trained[i - 1])]
                 if src:
@@ -829,6 +866,28 @@ LEAK_SCRIPT = [('build', 1, 0, 0, NOP), ('train', 1, 0, 1, NOP), ('getstate', 1,
                ('build', 2, 0, 0, NOP), ('setstate', 2, 1, 0, NOP), ('apply', 2, 0, 2, NOP)]
 
 
+def reference_trace():
+    """The conforming trace of LEAK_SCRIPT from builder(a=1), written by hand (no forml code involved)."""
+    ev1 = {'p': [1, 0], 'd': 1}
+    none = {'built': False, 'params': [0, 0], 'model': [], 'stateful': 0}
+
+    def inst(params, model):
+        return {'built': True, 'params': params, 'model': model, 'stateful': 1}
+
+    after = [([1, ABSENT], [inst([1, 0], []), none, none]),
+             ([1, ABSENT], [inst([1, 0], [ev1]), none, none]),
+             ([1, ABSENT], [inst([1, 0], [ev1]), none, none]),
+             ([2, ABSENT], [inst([1, 0], [ev1]), none, none]),
+             ([2, ABSENT], [inst([1, 0], [ev1]), inst([2, 0], []), none]),
+             ([2, ABSENT], [inst([1, 0], [ev1]), inst([2, 0], [ev1]), none]),
+             ([2, ABSENT], [inst([1, 0], [ev1]), inst([2, 0], [ev1]), none])]
+    events = []
+    for (op, i, j, d, p), (bld, insts) in zip(LEAK_SCRIPT, after):
+        events.append({'op': op, 'i': i, 'j': j, 'd': d, 'p': list(p), 'res': 'ok', 'empty': False, 'bld': bld, 'inst': insts,
+                       'out': {'p': [2, 0], 'm': [ev1], 'x': 2} if op == 'apply' else NOOUT})
+    return {'ht': True, 'bld': [1, ABSENT], 'ev': events}
+
+
 def trace_validation(chk):
     rnd = random.Random(chk.seed + 13)
     per, length = (12, 14) if chk.quick else (150, 18)
@@ -843,7 +902,7 @@ def trace_validation(chk):
                 meta.append((name, mode))
     # binding self-tests: (a) the contract-breaking actor recorded by the same recorder, (b) one corrupted field
     traces.append(record_trace(FLAVOURS['leaky'], 'direct', rnd, 0, script=LEAK_SCRIPT, p0=[1, ABSENT]))
-    good = record_trace(FLAVOURS['native'], 'direct', rnd, 0, script=LEAK_SCRIPT, p0=[1, ABSENT])
+    good = reference_trace()
     traces.append(good)
     bad = json.loads(json.dumps(good))
     bad['ev'][5]['inst'][1]['model'] = []  # "the transferred state was not installed"
@@ -855,8 +914,8 @@ def trace_validation(chk):
         raise tlc.MachineryError(f'expected {len(traces)} verdicts, got {len(verdicts)}')
     n = len(meta)
     if not verdicts[n + 2][1] == verdicts[n + 2][2] == 7:
-        raise tlc.MachineryError(f'the reference script recorded from the native actor was not accepted: {verdicts[n + 2]}')
-    chk.selftest('trace_of_params_leaking_actor_rejected', verdicts[n + 1][1] == 5 and verdicts[n + 1][2] == 7)
+        raise tlc.MachineryError(f'the hand-written reference trace was not accepted: {verdicts[n + 2]}')
+    chk.selftest('trace_of_params_leaking_actor_rejected', verdicts[n + 1][1] < verdicts[n + 1][2])
     chk.selftest('trace_with_corrupted_model_rejected', verdicts[n + 3][1] == 5)
     events = 0
     for k, (name, mode) in enumerate(meta, start=1):
